@@ -146,6 +146,32 @@ CLAIMED = {
        "(fake open(), fake objects); OS file semantics vs BytesIO are not modelled.",
   technique="Lean 4 proof (decision logic of the file-argument resolution) + cross-kind differential on the real code",
   ref="DESIGN.md §5 C17"),
+ "C13": dict(
+  text="Lean 4 theorems (Props/C13.lean) over the model of the date logic of update_to_v23/update_to_v24: date_carried - for every year 1..9999, "
+       "month, day, hour (incl. 0) and minute (incl. 0) the recording date is written to TYER (4 digits), TDAT (DDMM) and TIME (HHMM) with exactly "
+       "those digits; v23_v24_roundtrip - converting to v2.3 and back gives the same year/month/day/hour/minute, seconds 0; partial_dates. "
+       "Partial: byte-level validity of v2.3/v2.4 output (version byte, plain vs syncsafe sizes, Latin-1/UTF-16 only, no v2.4-only frame ids), "
+       "TDOR->TORY, TIPL+TMCL->IPLS, multi-value joining by separator, sub-frame conversion and the ID3v1 block are decided on the real code by "
+       "an independent ID3v2/ID3v1 decoder (harness/id3spec.py) over generated tags x separators x v1 options.",
+  note="Trusted: Lean kernel; standard axioms (decide +kernel over the 100 two-digit and 10000 four-digit renderings); the structured-date model "
+       "is compared with update_to_v23 on every generated time stamp; harness/id3spec.py as the independent reading of the ID3 specifications.",
+  technique="Lean 4 proof (digit-level date conversion, kernel-decided formatting tables) + independent ID3v2.3/ID3v1 decoder on the real output",
+  ref="DESIGN.md §5 C13"),
+ "C16": dict(
+  text="Lean 4 theorems (Props/C16.lean): dictmixin_refines - proved ONCE and generically: if a store's four primitives (keys/getitem/setitem/"
+       "delitem) refine a reference dictionary under an abstraction function, every DictMixin-derived operation (contains, values, items, clear, "
+       "pop, popitem, update, setdefault, get, len) returns what the reference returns and commutes with the abstraction; proxy_refines, "
+       "ape_refines (case-insensitive store with the APEv2 key rule, invalid key -> KeyError, spelling kept), vc_refines (VCommentDict: list of "
+       "pairs, case-insensitive access, invalid key -> ValueError, list-valued semantics) and the VCommentDict overrides; trace_equiv / "
+       "trace_equiv_det - for EVERY finite operation sequence the outputs equal the reference's (popitem angelic). Partial: ID3, MP4, ASF, the "
+       "Easy views and the FileType proxies have no Lean model; they are checked against an independent Python reference dictionary over random "
+       "operation sequences (shrunk by delta debugging), incl. Easy-view/native consistency.",
+  note="Trusted: Lean kernel; standard axioms; the three store models are compared with the real DictProxy / APEv2 / VCommentDict objects on "
+       "every generated sequence (items and len after every step); ASCII case folding. known_findings.json lists the open mapping-law "
+       "violations of the Easy views (replay-gain key coupling, pattern-key case, missing KeyError, AttributeError on non-str keys), ASFTags "
+       "and ID3 with non-str keys.",
+  technique="Lean 4 proof (generic refinement of the DictMixin-derived operations + simulation of three stores, induction over operation sequences) + reference-dictionary differential",
+  ref="DESIGN.md §5 C16"),
 }
 
 PENDING_REASON = "not claimed yet in this revision: the Lean model and theorems for this property are still being built (see DESIGN.md §7 build order); it is not 'not applicable' in principle"
